@@ -104,6 +104,7 @@ class Check:
         self.violations = []      # (key, description, replay-object)
         self.known_hits = {}
         self.worker_bin = None
+        self.prefix_of = {}
         self._nontrivial = set()
         kf = os.path.join(VERIF, "KNOWN_FINDINGS.json")
         self.known = []
@@ -239,6 +240,9 @@ class Check:
             return {}, {}
         chunks = [items[i::parallel] for i in range(min(parallel, n))]
         results, deaths = {}, {}
+        for ch in chunks:          # remember which scenarios preceded each one in its worker process
+            for k, (sid, _) in enumerate(ch):
+                self.prefix_of[(family, sid)] = ch[:k + 1]
         wenv = dict(env or os.environ, VERIF_SEED=str(self.seed))
 
         def run_chunk(chunk):
@@ -293,6 +297,22 @@ class Check:
         with ThreadPoolExecutor(max_workers=len(chunks)) as ex:
             list(ex.map(run_chunk, chunks))
         return results, deaths
+
+    def reproduce(self, family, sc, still_bad, env=None):
+        """Confirm a deviation on a fresh worker: first the scenario alone; if it does not show alone (state kept by the
+        library across calls in one process), together with the scenarios that preceded it in its worker process.
+        still_bad(events of sc) -> bool.  Returns "alone" | "with-predecessors" or raises FrameworkError."""
+        pref = self.prefix_of.get((family, sc))
+        if not pref:
+            raise FrameworkError("no record of scenario %s" % sc)
+        for attempt in range(3):     # a deviation that depends on wall-clock timing gets three chances
+            r, d = self.run_worker(family, [pref[-1]], parallel=1, env=env)
+            if sc in d or still_bad(r.get(sc, [])):
+                return "alone"
+            r, d = self.run_worker(family, list(pref), parallel=1, env=env)
+            if sc in d or still_bad(r.get(sc, [])):
+                return "with-predecessors"
+        raise FrameworkError("deviation of scenario %s not reproduced" % sc)
 
     # ---------------------------------------------------------------- verdicts
     def nontrivial(self, obj):
